@@ -274,12 +274,24 @@ def iteration_order(it, stack) -> Optional[str]:
 
 
 # ------------------------------------------------------------------------ R2
+def _declared_in_base(q: str) -> bool:
+    """q is a method of a package class the scope-stack class derives from (an ABC / Protocol it implements)."""
+    F = common.CURRENT_FACTS[0]
+    if F is None:
+        return False
+    cq = q.rsplit('.', 1)[0]
+    return cq != SD and cq in F.mro(SD)
+
+
 def _is_push(e: Event, scopes: str) -> Optional[Any]:
     """The stack object a call pushes onto, if it is a push."""
     if e.kind != 'call':
         return None
     if e.resolved == SD + '.push_scope' and (not e.d.get('inlined') or scopes is None):
         f = freeze(e.func)
+        return f[1] if f[0] == 'attr' else None
+    if e.resolved and e.resolved.endswith('.push_scope') and _declared_in_base(e.resolved):
+        f = freeze(e.func)          # the abstract push of an interface the scope stack implements (template method in the base)
         return f[1] if f[0] == 'attr' else None
     if scopes is None:
         return None
@@ -301,6 +313,8 @@ def _is_pop(e: Event, scopes: str) -> Optional[Any]:
         return None
     f = freeze(e.func)
     if e.resolved is None and isinstance(f, tuple) and f and f[0] == 'attr' and f[2] == 'pop_scope':
+        return f[1]
+    if e.resolved and e.resolved.endswith('.pop_scope') and _declared_in_base(e.resolved) and isinstance(f, tuple) and f[:1] == ('attr',):
         return f[1]
     if isinstance(f, tuple) and f and f[0] == 'attr' and f[2] == 'pop' and isinstance(f[1], tuple) and f[1][0] == 'attr' and f[1][2] == scopes \
             and (not e.args or freeze(e.args) == (('const', -1),)):
@@ -388,7 +402,12 @@ def _r2(chk: Check, R2: str, scopes: str) -> None:
                         covered = any(c[0] == 'try' and c[1] is tnode for c in x.ctx) or \
                             any(c[0] == 'finally' and c[1] is tnode for c in x.ctx)
                         inner_push = e.eid in [c[1] for c in x.in_ctx('inline')]
-                        if not covered and not inner_push:
+                        fx_ = freeze(x.func) if x.kind == 'call' else None
+                        harmless = x.kind == 'call' and isinstance(fx_, tuple) and fx_[:2] == ('ref', 'builtin') and fx_[2] in ('len', 'max', 'min', 'id', 'type') \
+                            and all(om.carries(a_, ('attr', ('param', om.self_param(F, q) if q in F.functions and F.functions[q].cls else ''), scopes)) or
+                                    (isinstance(a_, tuple) and a_[:1] in (('const',), ('pcall',), ('attr',))) for a_ in freeze(x.args))
+                        # (len / max of the scope list and of numbers kept on the object: a depth statistic; none of these can raise)
+                        if not covered and not inner_push and not harmless:
                             problems.append('`%s` runs between the push and the try/finally that pops: if it raises, '
                                             'the scope is never popped' % x.text())
                 more = [x for x in evs[j + 1:] if _is_pop(x, scopes) == obj]
